@@ -44,6 +44,15 @@ let leaf_fields (v : leafval) : string =
       (dec_of_n v.se_read_size) (b01 v.se_unparsed)
   | LMdat m -> Printf.sprintf "mdat:%s:%s" (hex_of_bytes m.md_data) (b01 m.md_large)
 
+let ent_fields (v : entval) : string =
+  match v with
+  | EVse x ->
+    Printf.sprintf "vse:%d:%d:%d:%s:%s:%d:%s:[%s]" (int_of_n x.vs_dri) (int_of_n x.vs_width) (int_of_n x.vs_height) (hexn x.vs_hres)
+      (hexn x.vs_vres) (int_of_n x.vs_frames) (hex_of_bytes x.vs_cname) (S.concat "," (L.map dump x.vs_kids))
+  | EStsd x ->
+    Printf.sprintf "stsd:%d:%s:%d:[%s]" (int_of_n x.sd_version) (hexn x.sd_flags) (int_of_n x.sd_count)
+      (S.concat "," (L.map (fun t -> name_hex (tname t) ^ ":" ^ dec_of_n (tsize t)) x.sd_kids))
+
 (* ---- shapes *)
 let parse_traf (s : string) : trafshape =
   let atoms = if s = "-" then [] else split_on '+' s in
@@ -167,6 +176,19 @@ let () =
           | r -> cls_of r in
         if m1 = o1 && m2 = o2 then Printf.printf "OK %s\n" id
         else Printf.printf "MISMATCH %s leaf model_r=%s model_sr=%s\n" id m1 m2
+      | ["V"; id; hex; o1; o2] ->
+        let bs = bytes_of_hex hex in
+        (* the Go side prints the box type of a sample entry after "vse:"; the model value does not carry it: take it from the input *)
+        let nm = if L.length bs >= 8 then name_hex (L.filteri (fun i _ -> i >= 4 && i < 8) bs) else "" in
+        let fix s = if S.length s > 7 && S.sub s 0 7 = "ok:vse:" then "ok:vse:" ^ nm ^ ":" ^ S.sub s 7 (S.length s - 7) else s in
+        let m1 = match entbox_r bs with
+          | Ok (v, n) -> fix (Printf.sprintf "ok:%s:S%s:%d" (ent_fields v) (dec_of_n (entval_size v)) (int_of_n n))
+          | r -> cls_of r in
+        let m2 = match entbox_sr bs with
+          | Ok ((v, p), e) -> fix (Printf.sprintf "ok:%s:S%s:%d:%s" (ent_fields v) (dec_of_n (entval_size v)) (int_of_z p) (b01 e))
+          | r -> cls_of r in
+        if m1 = o1 && m2 = o2 then Printf.printf "OK %s\n" id
+        else Printf.printf "MISMATCH %s entry model_r=%s model_sr=%s\n" id m1 m2
       | ["L"; id; hex; o1; o2] ->
         let bs = bytes_of_hex hex in
         (* the byte-level loops deliver the box sequence; the one assembly rule that can reject a sequence of these leaves
